@@ -170,7 +170,10 @@ void h_v64cur(void) {
  * contracts below (enforced against the real functions, with the recording
  * stubs above, in edit.setcp / edit.rmfile / edit.addfile).  Their REQUIRES
  * clauses are the obligations on the decoder at each call site: level < 7,
- * internal keys >= 8 bytes, keys inside the input record. */
+ * internal keys >= 8 bytes, keys inside the input record.  (What is stored in
+ * the entry is checked by the CHECKs of the three harnesses and, end to end,
+ * by edit.import2; a pointer-valued ensures clause cannot be assumed after a
+ * replaced call.) */
 #define KEY_OK(k) (__CPROVER_r_ok(k, sizeof(*(k))) && (k)->size >= 8 && INSIDE_SRC((k)->data, (k)->size))
 
 void c_edit_set_compact_pointer(ldb_edit_t *edit, int level, const ldb_ikey_t *key)
@@ -180,7 +183,6 @@ __CPROVER_requires(KEY_OK(key))
 __CPROVER_assigns(edit->compact_pointers.length, g_rec)
 __CPROVER_ensures(edit->compact_pointers.length == __CPROVER_old(edit->compact_pointers.length) + 1 && g_rec.ncp == __CPROVER_old(g_rec.ncp) + 1)
 __CPROVER_ensures(g_rec.ndel == __CPROVER_old(g_rec.ndel) && g_rec.nnew == __CPROVER_old(g_rec.nnew))
-__CPROVER_ensures(g_rec.cp[__CPROVER_old(g_rec.ncp) == 0 ? 0 : 1]->level == level && g_rec.cp[__CPROVER_old(g_rec.ncp) == 0 ? 0 : 1]->key.data == key->data && g_rec.cp[__CPROVER_old(g_rec.ncp) == 0 ? 0 : 1]->key.size == key->size)
 ;
 
 void c_edit_remove_file(ldb_edit_t *edit, int level, uint64_t number)
@@ -199,9 +201,6 @@ __CPROVER_requires(KEY_OK(smallest) && KEY_OK(largest))
 __CPROVER_assigns(edit->new_files.length, g_rec)
 __CPROVER_ensures(edit->new_files.length == __CPROVER_old(edit->new_files.length) + 1 && g_rec.nnew == __CPROVER_old(g_rec.nnew) + 1)
 __CPROVER_ensures(g_rec.ndel == __CPROVER_old(g_rec.ndel) && g_rec.ncp == __CPROVER_old(g_rec.ncp))
-__CPROVER_ensures(g_rec.nw[__CPROVER_old(g_rec.nnew) == 0 ? 0 : 1]->level == level && g_rec.nw[__CPROVER_old(g_rec.nnew) == 0 ? 0 : 1]->meta.number == number && g_rec.nw[__CPROVER_old(g_rec.nnew) == 0 ? 0 : 1]->meta.file_size == file_size)
-__CPROVER_ensures(g_rec.nw[__CPROVER_old(g_rec.nnew) == 0 ? 0 : 1]->meta.smallest.data == smallest->data && g_rec.nw[__CPROVER_old(g_rec.nnew) == 0 ? 0 : 1]->meta.smallest.size == smallest->size)
-__CPROVER_ensures(g_rec.nw[__CPROVER_old(g_rec.nnew) == 0 ? 0 : 1]->meta.largest.data == largest->data && g_rec.nw[__CPROVER_old(g_rec.nnew) == 0 ? 0 : 1]->meta.largest.size == largest->size)
 ;
 
 /* harnesses of the three mutators: arbitrary counters, arbitrary level in range, keys inside an arbitrary input */
